@@ -121,6 +121,8 @@ OVERLAYS = {
     "snaps_diff_test.go": ("snaps", "zz_verif_diff_test.go"),
     "snaps_yaml_test.go": ("snaps", "zz_verif_yaml_test.go"),
     "snaps_clean_test.go": ("snaps", "zz_verif_clean_test.go"),
+    "snaps_c11_test.go": ("snaps", "zz_verif_c11_test.go"),
+    "snaps_helper_nontest.go": ("snaps", "zz_verif_helper_nontest.go"),
 }
 
 
